@@ -379,7 +379,7 @@ func parserFaults(c *simkit.Choices, x *simkit.Ctx) *simkit.Violation {
 		}
 		sortInts(sc.Cuts)
 	case "reader", "decoder-reader":
-		sc.BufSize = []int{1, 2, 3, 7, 16, 64, 4096}[c.N(7)]
+		sc.BufSize = common.DrawBufSize(c)
 		for i, n := 0, 1+c.N(3); i < n; i++ {
 			sc.Reads = append(sc.Reads, 1+c.N(9))
 		}
